@@ -3,7 +3,7 @@
 //! Everything in here is observation only: the crate reports what it is about to do to a
 //! handler installed by an external harness. With no handler installed every probe is a no-op.
 
-use core::sync::atomic::{AtomicUsize, Ordering};
+use core::sync::atomic::{AtomicPtr, Ordering};
 
 /// Which waker vtable entry was entered.
 #[derive(Clone, Copy, Debug, PartialEq, Eq)]
@@ -56,19 +56,19 @@ pub enum Event {
     Hit(Hit),
 }
 
-static HANDLER: AtomicUsize = AtomicUsize::new(0);
+static HANDLER: AtomicPtr<()> = AtomicPtr::new(core::ptr::null_mut());
 
 /// Installs the process-wide handler. The handler may be called from any thread.
 pub fn set_handler(f: fn(&Event)) {
-    HANDLER.store(f as usize, Ordering::SeqCst);
+    HANDLER.store(f as *mut (), Ordering::SeqCst);
 }
 
 #[inline]
 pub(crate) fn emit(e: Event) {
     let p = HANDLER.load(Ordering::Relaxed);
-    if p != 0 {
+    if !p.is_null() {
         // SAFETY: only `set_handler` stores here, and it stores a `fn(&Event)`.
-        let f: fn(&Event) = unsafe { core::mem::transmute::<usize, fn(&Event)>(p) };
+        let f: fn(&Event) = unsafe { core::mem::transmute::<*mut (), fn(&Event)>(p) };
         f(&e);
     }
 }
